@@ -288,6 +288,7 @@ RECIPES = {
     },
     "C19": {
         "level": "model_checking",
+        "custom": [features.abi_reference_coverage],
         "families": {"quick": [("abi", 1, 1)], "thorough": [("abi", 1, 1)]},
         "reasons": ("value", "panic"),
         "tags": ["abi_const", "abi_struct", "to_str", "to_string"],
